@@ -46,6 +46,18 @@ def apply_pop(model, ops):
             pass        # duplicate join / unknown leave: documented errors, nothing changes (C04)
 
 
+class Founder(System):
+    """Runs before everything else; at timestep `when` it unregisters itself (clean_up) - the collectors behind it must not notice."""
+
+    def __init__(self, model, when):
+        super().__init__("founder", model, priority=0)
+        self.when = when
+
+    def execute(self):
+        if self.model.systems.timestep == self.when:
+            self.clean_up()
+
+
 class PopSystem(System):
     def __init__(self, model):
         super().__init__("pop", model, priority=0)
@@ -132,7 +144,11 @@ def _run(prog, tmp):
             m.systems.add_system(c)
             fcs[f["name"]] = c
 
-    if prog.get("first") == "collectors":
+    if prog.get("founder") is not None:
+        m.systems.add_system(pop)
+        m.systems.add_system(Founder(m, prog["founder"]))      # same priority as pop, registered after it: directly before the collectors
+        make_collectors()
+    elif prog.get("first") == "collectors":
         make_collectors()
         m.systems.add_system(pop)
         if prog.get("replace_env"):
@@ -194,7 +210,8 @@ def random_program(rng, steps=8):
         if rng.random() < 0.3:
             ops.append(["between", popops(rng.randint(1, 2))])
         ops.append(["step", popops(rng.choice([0, 1, 1, 2, 3]))])
-    return {"acs": acs, "fcs": fcs, "first": rng.choice(["pop", "collectors"]), "replace_env": rng.random() < 0.4, "ops": ops}
+    return {"acs": acs, "fcs": fcs, "first": rng.choice(["pop", "collectors"]), "replace_env": rng.random() < 0.4,
+            "founder": rng.choice([None, None, 0, 1, 2, 3]), "ops": ops}
 
 
 def sweep_programs():
